@@ -58,7 +58,43 @@ def _through_layers(tree):
     return T.from_node(top_b.got[0]), None
 
 
+_CODEC_FUNCS = []
+
+
+def _case_size(case):
+    """bytes of strings and content in the case's tree (the codec's loops are linear in it)"""
+    def size(t):
+        tag, attrs, content = t
+        n = len(tag) + sum(len(k) + len(v) for k, v in attrs.items())
+        if isinstance(content, (bytes, bytearray)):
+            n += len(content)
+        elif isinstance(content, list):
+            n += sum(size(c) for c in content)
+        return n + 8
+    try:
+        return size(G.materialize(case["tree"])) if "tree" in case else 0
+    except Exception:
+        return 0
+
+
 def run_case(case):
+    """the codec's loops run under a deterministic iteration budget: a decoder or encoder that stops making progress ends the
+    case (and is reported) instead of the run"""
+    from ..kit.stackkit import loop_budget, LoopBudgetExceeded, functions_of
+    if not _CODEC_FUNCS:
+        import yowsup.layers.coder.decoder as _d
+        import yowsup.layers.coder.encoder as _e
+        _CODEC_FUNCS.extend(functions_of(_d, _e))
+    try:
+        with loop_budget(_CODEC_FUNCS, 20000000 + 400 * _case_size(case)):
+            return _run_case(case)
+    except LoopBudgetExceeded as e:
+        out = Outcome()
+        out.fail("roundtrip", "codec_loop_makes_no_progress", {"error": str(e)})
+        return out
+
+
+def _run_case(case):
     out = Outcome()
     tree = G.materialize(case["tree"])
     feats = G.features(tree)
